@@ -8,7 +8,7 @@ demo=$(ls $O/demo.* | head -1)
 echo "== patched: git diff --stat"; git diff --stat | tail -3
 echo "== patch.diff equals worktree diff: $(diff <(git diff) $O/patch.diff >/dev/null && echo yes || echo NO)"
 echo "== build (patched)"; cargo build --offline 2>&1 | tail -1
-echo "== tests (patched)"; cargo test --offline --no-fail-fast 2>&1 | grep -E "^test result|FAILED|failed" | head -6
+echo "== tests (patched)"; timeout 900 cargo test --offline --no-fail-fast 2>&1 | grep -E "^test result|FAILED|failed" | head -6
 echo "== demo on patched binary"; timeout 600 $demo $W/target/debug/cicada > $O/demo_patched.out 2>&1; echo "exit=$?"; tail -3 $O/demo_patched.out
 git apply -R $O/patch.diff || echo "REVERSE APPLY FAILED"
 echo "== build (unpatched)"; cargo build --offline 2>&1 | tail -1
